@@ -16,6 +16,7 @@ from .. import seams, netlist
 from ..catalog import KINDS, kinds_with
 from ..seams import quiet
 from py4hw.base import Wire
+import py4hw
 
 PROP = 'C05'
 TIERS = {'quick': 4500, 'thorough': 280000}
@@ -29,7 +30,7 @@ REAL = ['py4hw.simulation.Simulator.clk/_clk_cycle/stop', 'py4hw.base.Wire.prepa
 STUB = ['stimulus (wire.put between clk calls)', 'cancelling listener']
 ASSUMPTIONS = ['inputs change only between clk calls, identically in both systems',
                'reference models in dsim/catalog.py']
-PROBES = ['fsm_block', 'swap_pair', 'ring', 'memory', 'split_clk', 'stop_cancel', 'multi_driver']
+PROBES = ['bidir_sequential', 'simulator_fetched_in_clock', 'fsm_block', 'swap_pair', 'ring', 'memory', 'split_clk', 'stop_cancel', 'multi_driver']
 
 
 def gen(rs, tier, index):
@@ -38,6 +39,7 @@ def gen(rs, tier, index):
     seqk = [k for k in kinds_with(seq=True) if k.name not in ('ClockDivider',)] + [KINDS['ClockDivider']]
     # FSM blocks: behavioural library blocks (no catalogue model: the twin is their oracle) and the message sequencer
     seqk += [k for k in kinds_with(tag='transpiled')] + [KINDS['MsgSequencer']]
+    seqk += kinds_with(tag='simpeek')      # a monitor block that fetches the simulator from inside clock()
     shape = rng.random()
     if shape < 0.2:
         d = swap_ring_design(rng)
@@ -53,6 +55,10 @@ def gen(rs, tier, index):
             gd[g] = {'name': rng.choice(['clk_b', 'clk_' + g.replace('/', '_')]), 'en': None}
     if gd:
         d['group_driver'] = gd
+    d['bidir'] = []
+    for _ in range(rng.choice([0, 0, 1, 2])):
+        w = rng.choice([1, 8, 16])
+        d['bidir'].append({'w': w, 'values': [rng.getrandbits(w) for _ in range(rng.randint(2, 5))]})
     order = list(d['order'])
     if rng.random() < 0.6:
         rng.shuffle(order)
@@ -147,7 +153,16 @@ def run(scn, log, st):
         st.probe('fsm_block')
     if d.get('group_driver'):
         st.probe('multi_driver')
+    if 'SimPeek' in kinds:
+        st.probe('simulator_fetched_in_clock')
     b = netlist.Built(d).build(scn['order'])
+    pads = []
+    for j, bd in enumerate(d.get('bidir', [])):
+        # a bidirectional wire driven by a sequential block: its prepared updates take part in the same atomic edge
+        bw = b.hw.bidir_wire('pad%d' % j, bd['w'])
+        py4hw.Sequence(b.hw, 'padseq%d' % j, list(bd['values']), bw)
+        pads.append((bw, bd))
+        st.probe('bidir_sequential')
     with quiet():
         sim = b.hw.getSimulator()
     twin = netlist.Twin(d)
@@ -219,6 +234,11 @@ def run(scn, log, st):
         compare_states(b, twin, si, where)
         netlist.compare(b, ref.vals, si, where, sigprefix='ref-mismatch')
         seams.check_wire_ranges(b.hw, where, si)
+        for bw, bd in pads:
+            exp = bd['values'][(st.cycles - 1) % len(bd['values'])] & ((1 << bd['w']) - 1)
+            if bw.get() != exp:
+                raise Violation('lost-update', 'bidir:lost-update', si, '%s: bidirectional wire %s holds %#x after %d edges, its sequence gives %#x' % (
+                    where, bw.name, bw.get(), st.cycles, exp))
         st.state(*[repr(ref.state[nid]) for nid in sorted(ref.state) if ref.state[nid] is not None][:6])
         log.add('step', si, h64(sorted((r, w.get()) for r, w in b.wires.items())))
 
